@@ -606,25 +606,115 @@ def _drop_bad_expressions(data):
     return "".join(keep).encode("utf-8")
 
 
-#: known-finding shapes: the single obstacle whose removal makes the written file readable
-OBSTACLES = [
-    ("c07-header-beyond-window", lambda d: lint_read_bytes(d, window=False)),
-    ("c07-open-ignore-region", lambda d: lint_read_bytes(_drop_open_ignore(d))),
-    ("c07-unparseable-expression-elsewhere", lambda d: lint_read_bytes(_drop_bad_expressions(d))),
-]
+# --------------------------------------------------------------------------
+# first-line markers: the committed copy of the style table's SHEBANGS (harness/props/first_line_markers.json).  The property
+# lets "a shebang or XML-declaration-like first line" stay in front of the header; which first lines those are is written down
+# there, by hand, from the unchanged style table.  A marker the live table has and this list lacks is an ordinary first line to
+# the oracle: a header that lands behind such a line — and out of the linter's window — is a violation, not the known finding.
+
+_MARKERS = None
 
 
-def obstacle(data, want, merged):
+def committed_markers(style_name):
+    global _MARKERS
+    if _MARKERS is None:
+        with open(os.path.join(os.path.dirname(os.path.abspath(__file__)), "first_line_markers.json"), encoding="utf-8") as fp:
+            _MARKERS = json.load(fp)["markers"]
+    return _MARKERS.get(style_name or "", [])
+
+
+def style_name_for(case, f, target):
+    """class name of the comment style the header in `target` is written in (None: the .license pseudo style / unknown)"""
+    from reuse import comment
+    if target.endswith(".license") and not f["name"].endswith(".license"):
+        return None
+    st = comment.NAME_STYLE_MAP.get(case.get("style")) if case.get("style") else None
+    if st is None:
+        st = comment.get_comment_style(target)
+    return None if st is None else st.__name__
+
+
+WINDOW = 4096
+#: a header that starts within this many bytes and holds less than this much information ends inside the window
+HALF_WINDOW = 2048
+
+
+def _leading_marker_bytes(before, markers):
+    """bytes taken by the lines at the top of `before` (after a byte order mark) that start with one of `markers`"""
+    text = before.decode("utf-8", errors="replace").lstrip("\ufeff")
+    n = 0
+    for line in re.findall(r"[^\r\n]*(?:\r\n|\r|\n)|[^\r\n]+", text):
+        if any(line.startswith(m) for m in markers):
+            n += len(line.encode("utf-8"))
+        else:
+            break
+    return n
+
+
+def beyond_window_is_known(before, want, markers):
+    """The documented shapes of `c07-header-beyond-window` — the place the header belongs lies (partly) outside the 4096 bytes
+    the linter reads: (a) the first-line declarations the file starts with (committed markers of its style) and the information
+    the header must hold (30 bytes of comment frame per line allowed for) together take half the window or more; (b) the file
+    already declared REUSE information, none of it within the first half of the window (the header is replaced where it
+    stands)."""
+    if before is None:
+        return True
+    info = sum(len(x.encode("utf-8")) + 30 for part in want for x in part)
+    if _leading_marker_bytes(before, markers) + info >= HALF_WINDOW:
+        return True
+    whole = lint_read_bytes(before, window=False)
+    if whole is None:
+        return True
+    if any(whole):
+        top = lint_read_bytes(before[:HALF_WINDOW])
+        if top is None or not any(top):
+            return True
+    return False
+
+
+def obstacle(data, want, merged, before=None, markers=(), holds=None):
     """Key of the known-finding shape this unreadable file belongs to: the linter does not read `want` from `data`,
-    but does once exactly one documented obstacle is taken away."""
+    but does once exactly one documented obstacle is taken away.  `before`: the bytes of the file before the run
+    (None: not known — any header beyond the window counts as the known shape); `holds`: everything the header holds
+    (requested and previously declared; default: `want`)."""
     got = lint_read_bytes(data)
     if got is not None and not missing(want, got, merged):
         return None
+    got = lint_read_bytes(data, window=False)
+    if got is not None and not missing(want, got, merged):
+        return "c07-header-beyond-window" if beyond_window_is_known(before, holds or want, markers) else None
     for key, read in OBSTACLES:
         got = read(data)
         if got is not None and not missing(want, got, merged):
             return key
     return None
+
+
+#: known-finding shapes: the single obstacle whose removal makes the written file readable
+OBSTACLES = [
+    ("c07-open-ignore-region", lambda d: lint_read_bytes(_drop_open_ignore(d))),
+    ("c07-unparseable-expression-elsewhere", lambda d: lint_read_bytes(_drop_bad_expressions(d))),
+]
+
+
+def content_binary(name, data):
+    """binaryornot's verdict on a file of this name holding these bytes (what `is_binary` answers: extension list, then the
+    first 512 bytes)"""
+    from binaryornot.helpers import has_binary_extension, is_binary_string
+    return bool(has_binary_extension(name) or is_binary_string(data[:512]))
+
+
+def sniffer_flip(rec, target, data, want, merged):
+    """Known-finding shape `c07-sniffer-verdict-flips`: binaryornot called `target` text before the run (or it did not exist),
+    annotate therefore wrote the header into it, and binaryornot calls the result binary — the linter, asking the same
+    library, does not open the file although the header is there to be read."""
+    had = rec.get("before_files", {}).get(target)
+    if had is not None and had[0] == "file" and content_binary(target, bytes.fromhex(had[1])):
+        return False
+    if not content_binary(target, data):
+        return False
+    got = lint_read_bytes(data)
+    return got is not None and not missing(want, got, merged)
 
 
 def recognised_name(name):
@@ -685,8 +775,14 @@ def judge_file(case, f, rec, single_rc):
     target = name + ".license" if name + ".license" in rec["after_files"] or (name + ".license" in target_changed) else name
     data = bytes.fromhex(rec["after_files"][target][1]) if target in rec["after_files"] else b""
 
+    had = rec.get("before_files", {}).get(target)
+    before_bytes = bytes.fromhex(had[1]) if had is not None and had[0] == "file" else b""
+
     def shape(w):
-        k = obstacle(data, w, merged)
+        k = obstacle(data, w, merged, before=before_bytes, markers=committed_markers(style_name_for(case, f, target)),
+                     holds=tuple(set(a) | set(b) for a, b in zip(want, prev)))
+        if k is None and sniffer_flip(rec, target, data, w, merged):
+            k = "c07-sniffer-verdict-flips"
         return " {shape=%s}" % k if k else ""
     m = missing(want, got, merged)
     if m:
@@ -696,11 +792,13 @@ def judge_file(case, f, rec, single_rc):
     if m:
         return "dropped-%s: %r was declared before and is gone; linter reads %r%s" % (
             sorted(m)[0], m, {"cpr": sorted(got[0]), "lic": sorted(got[1]), "con": sorted(got[2])}, shape(prev))
-    # "precisely": nothing is invented
-    if not merged and not got[0] <= (prev[0] | want[0]):
-        return "invented-copyright: %r is read back but was neither declared nor requested" % (sorted(got[0] - prev[0] - want[0]),)
-    if not got[1] <= (prev[1] | want[1]):
-        return "invented-licence: %r is read back but was neither declared nor requested" % (sorted(got[1] - prev[1] - want[1]),)
+    # "precisely": nothing is invented.  What stood in the file before the run — also beyond the 4096 bytes the linter reads, e.g. an
+    # own header below a very long first line that the new header (now at the top) took over — was declared by the file.
+    stood = (lint_read_bytes(before_bytes, window=False) if before_bytes else None) or (set(), set(), set())
+    if not merged and not got[0] <= (prev[0] | want[0] | stood[0]):
+        return "invented-copyright: %r is read back but was neither declared nor requested" % (sorted(got[0] - prev[0] - want[0] - stood[0]),)
+    if not got[1] <= (prev[1] | want[1] | stood[1]):
+        return "invented-licence: %r is read back but was neither declared nor requested" % (sorted(got[1] - prev[1] - want[1] - stood[1]),)
     return None
 
 
